@@ -276,6 +276,66 @@ func c06GenCase(rt *rapid.T) c06Case {
 	c.Files[rapid.IntRange(0, len(c.Files)-1).Draw(rt, "rpos")] = rp
 	c.Sync = rapid.Bool().Draw(rt, "sync")
 	c.NewUser = rapid.IntRange(0, 4).Draw(rt, "newuser") == 0
+	if rapid.IntRange(0, 3).Draw(rt, "tight") == 0 {
+		// "tight" shape: the internal descriptors land right at the first scratch number. Everything below
+		// N = max(len(Files), highest listed + 1) is open except h holes (the socketpair takes the lowest free numbers),
+		// the exec descriptor sits at N+delta, and at least one listed descriptor has to be parked (number < slot).
+		if len(c.Files) >= 2 {
+			c.Files[len(c.Files)-1] = rapid.SampledFrom([]int{0, 1, 2, c.Files[0]}).Draw(rt, "parked")
+			if c.Files[len(c.Files)-1] < 0 {
+				c.Files[len(c.Files)-1] = 0
+			}
+		}
+		listed := map[int]bool{}
+		maxListed := 0
+		hasRP := false
+		for _, f := range c.Files {
+			if f >= 0 {
+				listed[f] = true
+				if f > maxListed {
+					maxListed = f
+				}
+				if f == rp {
+					hasRP = true
+				}
+			}
+		}
+		if !hasRP {
+			c.Files[0] = rp
+			listed[rp] = true
+			if rp > maxListed {
+				maxListed = rp
+			}
+		}
+		N := len(c.Files)
+		if maxListed+1 > N {
+			N = maxListed + 1
+		}
+		for k := range c.Open {
+			var x int
+			fmt.Sscanf(k, "%d", &x)
+			if c.Open[k] == -2 || (x >= N && !listed[x]) {
+				delete(c.Open, k)
+			}
+		}
+		holes := rapid.IntRange(0, 2).Draw(rt, "holes")
+		var free []int
+		for x := 3; x < N; x++ {
+			if _, ok := c.Open[fmt.Sprint(x)]; !ok {
+				free = append(free, x)
+			}
+		}
+		if len(free) > 1 {
+			free = rapid.Permutation(free).Draw(rt, "holeorder")
+		}
+		for i, x := range free {
+			if i >= holes {
+				c.Open[fmt.Sprint(x)] = rapid.IntRange(0, 5).Draw(rt, "fill")
+			}
+		}
+		c.ExecFile = N + rapid.IntRange(0, 3).Draw(rt, "execdelta")
+		c.Open[fmt.Sprint(c.ExecFile)] = -2
+	}
 	return c
 }
 
@@ -362,6 +422,22 @@ func c06Run(c c06Case, dir string, rec *vh.Recorder) error {
 		}
 	} else {
 		classes = append(classes, "exec-by-path")
+	}
+	if c.ExecFile > 0 && len(res.Low) == 2 {
+		n0 := len(c.Files)
+		if maxListed+1 > n0 {
+			n0 = maxListed + 1
+		}
+		parked := false
+		for i, f := range c.Files {
+			if f >= 0 && f < i {
+				parked = true
+			}
+		}
+		if parked && res.Low[1] >= n0 && c.ExecFile >= n0 && c.ExecFile-res.Low[1] >= -1 && c.ExecFile-res.Low[1] <= 1 {
+			classes = append(classes, fmt.Sprintf("unmoved sync fd and exec fd adjacent at the scratch area (exec fd = sync fd %+d, sync fd = first scratch number %+d)", c.ExecFile-res.Low[1], res.Low[1]-n0))
+			nt = true
+		}
 	}
 	vforkShare := !c.Sync && !c.NewUser
 	if vforkShare {
